@@ -92,7 +92,11 @@ TolE(e, t) == IF "x" \in DOMAIN e THEN R0 ELSE t
 \* C01
 TCompose(e) ==
   LET g == e.g  a == V(e.a)  b == V(e.b)  z == V(e.out)
-  IN ElemChk("C01.compose", g, z, XCompose(g, a, b), TolE(e, TolC01(e.sc)))
+      Y == XCompose(g, a, b)
+      \* rounding in the product is relative to the size of the FACTORS: when the translations cancel (x * x for a
+      \* half turn: t + R t ~ 0) the result is small but each term was rounded at the size of t
+      scale == RMax(RMax(R1, MaxAbs(Y)), RMax(MaxAbs(GMat(g, a)), MaxAbs(GMat(g, b))))
+  IN ScaledChk("C01.compose", g, z, Y, TolE(e, TolC01(e.sc)), scale)
 TInverse(e) ==
   LET g == e.g  a == V(e.a)  z == V(e.out)
   IN ElemChk("C01.inverse", g, z, MInv(GMat(g, a)), TolE(e, TolC01(e.sc)))
